@@ -429,6 +429,16 @@ class Engine:
         self.pure = set()            # callees shown elsewhere not to modify their arguments' objects
         self.clobber_pre = {}        # havoc atom -> value the location had before the clobbering call
         self.clobber_origin = {}     # havoc atom -> location it stands for (value after a call that may have written it)
+        self.auto_inline = True      # inline helpers that did not exist when the rules were written (known_functions.json)
+        self.auto_inlined = set()
+
+    def is_new_helper(self, name):
+        """a function with a body in the analysed units that is not in the frozen table of functions the rules were
+        written against: an extracted helper.  Its calls are no events any rule knows, so it is looked through."""
+        if not self.auto_inline or name is None or name in KNOWN_FUNCTIONS():
+            return False
+        u, f = self.find_fn(name)
+        return f is not None and u.body(name) is not None
 
     # -- lookup ------------------------------------------------------------
     def find_fn(self, name):
@@ -884,6 +894,7 @@ class _Activation:
         self.prefix = prefix          # variable name prefix for inlined frames
         self.labels = {}              # label name -> (stmts, idx, ctx, k)
         self.names = {}               # decl id -> unique variable name
+        self.stack = (fname,)         # functions being expanded (recursion guard for looked-through helpers)
 
     # ------------------------------------------------------------------
     def emit(self, st, end, ret=None, node=None):
@@ -1921,6 +1932,11 @@ class _Activation:
                     if f2 is not None:
                         out += self.inline_call(u2, name, vals, s, n)
                         continue
+                if name not in self.stack and self.depth < self.e.inline_depth + 3 and self.e.is_new_helper(name):
+                    u2, f2 = self.e.find_fn(name)
+                    self.e.auto_inlined.add(name)
+                    out += self.inline_call(u2, name, vals, s, n)
+                    continue
                 desc, kind_, chain = name, 'call', None
             else:
                 chain = cast.member_chain(callee)
@@ -2007,6 +2023,7 @@ class _Activation:
         out = []
         uid = next(_uid)
         act = _Activation(self.e, u2, name, self.out, self.depth + 1, prefix='%s@%d:' % (name, uid))
+        act.stack = self.stack + (name,)
         s0 = st.copy()
         marker = Effect('enter', name, tuple(vals), callnode)
         marker.inloop = s0.loopdepth
@@ -2030,6 +2047,21 @@ class _Activation:
         ctx = _Ctx(ret=on_ret)
         act.exec_stmt(u2.body(name), s0, ctx, lambda s: on_ret(s, None, None))
         return results
+
+
+_KNOWN = None
+
+
+def KNOWN_FUNCTIONS():
+    global _KNOWN
+    if _KNOWN is None:
+        import json, os
+        try:
+            _KNOWN = set(json.load(open(os.path.join(os.path.dirname(os.path.abspath(__file__)), 'known_functions.json')))['functions'])
+        except (OSError, ValueError, KeyError):
+            _KNOWN = None
+            raise Unsupported('known_functions.json not readable')
+    return _KNOWN
 
 
 PURE_FUNCTIONS = {'isnormal', 'isfinite', 'isnan', 'isinf', 'fpclassify', '__builtin_isnormal',
